@@ -64,23 +64,36 @@ type valCase struct {
 	classes []runeClass // of Name
 }
 
-// panicClass: the input class of finding knownValidatePanic - the first rejected rune sits at a byte
-// offset that is >= the number of runes of the name (some multi-byte rune precedes it)
+// panicClass: the input class of finding knownValidatePanic - some rune that is not certainly accepted
+// sits at a byte offset that is >= the number of runes of the name (multi-byte runes precede it)
 func (c valCase) panicClass() bool {
-	idx := 0
-	i := 0
-	for _, r := range c.Name {
-		_ = r
-		cl := c.classes[i]
-		bad := refVerdict([]runeClass{cl}, c.Label) == mustReject
-		if bad {
-			return idx >= utf8.RuneCountInString(c.Name)
+	count := utf8.RuneCountInString(c.Name)
+	off := 0
+	for i, part := range splitRunes(c.Name) {
+		if refVerdict(c.classes[i:i+1], c.Label) != mustAccept && off >= count {
+			return true
 		}
-		_, size := utf8.DecodeRuneInString(c.Name[idx:])
-		idx += size
-		i++
+		off += len(part)
 	}
 	return false
+}
+
+// asciify leaves the panic class while keeping the shape of the name: multi-byte runes that are
+// accepted (or may be) become single-byte ones, so that the first rejected rune has offset == index
+func (c *valCase) asciify() {
+	parts := splitRunes(c.Name)
+	for i := range parts {
+		if len(parts[i]) == 1 {
+			continue
+		}
+		switch refVerdict(c.classes[i:i+1], c.Label) {
+		case mustAccept:
+			parts[i], c.classes[i] = "a", rcLower
+		case either:
+			parts[i], c.classes[i] = "-", rcMinus
+		}
+	}
+	c.Name = strings.Join(parts, "")
 }
 
 func drawValCase(t *rapid.T) valCase {
@@ -109,23 +122,23 @@ func drawValCase(t *rapid.T) valCase {
 		g = drawValidName(t, alphabet, "name")
 		k := rapid.IntRange(1, 2).Draw(t, "nbad")
 		for j := 0; j < k; j++ {
-			at := rapid.IntRange(0, len(g.Classes)).Draw(t, "at")
+			parts := splitRunes(g.S)
+			at := rapid.IntRange(0, len(parts)).Draw(t, "at")
 			bc := rapid.SampledFrom(hostileRunes).Draw(t, "bad_class")
 			bs := drawRune(t, bc)
 			// splice at rune position `at`
-			parts := splitRunes(g.S, g.Classes)
-			parts = append(parts[:at], append([]string{bs}, parts[at:]...)...)
-			g.Classes = append(g.Classes[:at], append([]runeClass{bc}, g.Classes[at:]...)...)
-			g.S = strings.Join(parts, "")
+			g.S = strings.Join(parts[:at], "") + bs + strings.Join(parts[at:], "")
 		}
 	}
+	// classes always come from the classifier (adjacent invalid bytes may combine, tables overlap)
+	g.Classes = classify(g.S)
 	c.Name, c.classes = g.S, g.Classes
 	return c
 }
 
 // splitRunes cuts s into the strings of its generated "runes" (invalid bytes count as one)
-func splitRunes(s string, classes []runeClass) []string {
-	out := make([]string, 0, len(classes))
+func splitRunes(s string) []string {
+	out := make([]string, 0, len(s))
 	for i := 0; i < len(s); {
 		_, size := utf8.DecodeRuneInString(s[i:])
 		out = append(out, s[i:i+size])
@@ -175,23 +188,9 @@ func checkValidate(c valCase) error {
 func TestPropValidate(t *testing.T) {
 	rapid.Check(t, func(t *rapid.T) {
 		c := drawValCase(t)
-		// the generated classes must agree with the classifier (harness self-check)
-		if got := classify(c.Name); fmt.Sprint(got) != fmt.Sprint(c.classes) {
-			t.Fatalf("harness: classes of %q: generated %v, classified %v", c.Name, c.classes, got)
-		}
 		if c.panicClass() && hx.Known(knownValidatePanic) {
 			stats.Count("excluded_"+knownValidatePanic, 1)
-			// keep the shape of the case but make every rune before the offending one single-byte
-			parts := splitRunes(c.Name, c.classes)
-			for i := range parts {
-				if refVerdict(c.classes[i:i+1], c.Label) == mustReject {
-					break
-				}
-				if len(parts[i]) > 1 {
-					parts[i], c.classes[i] = "a", rcLower
-				}
-			}
-			c.Name = strings.Join(parts, "")
+			c.asciify()
 		}
 		hx.Journal(c)
 		if err := checkValidate(c); err != nil {
@@ -199,7 +198,9 @@ func TestPropValidate(t *testing.T) {
 		}
 		v := refVerdict(c.classes, c.Label)
 		sig := fmt.Sprintf("validate label=%v verdict=%s name=%s", c.Label, v, genName{S: c.Name, Classes: c.classes}.nameClass())
-		stats.Case(sig, len(c.Name) > 0, func() interface{} { return map[string]interface{}{"name": c.Name, "label": c.Label, "verdict": v.String()} })
+		stats.Case(sig, len(c.Name) > 0, func() interface{} {
+			return map[string]interface{}{"name": c.Name, "label": c.Label, "verdict": v.String()}
+		})
 		stats.Count("validate_"+v.String(), 1)
 	})
 }
